@@ -24,6 +24,12 @@ IsProg(a) == a.o \in {"progress", "no-progress"}
 
 Truthy(v) == v \in {"", "true"}
 
+\* gitconfig values that are not a threshold / a name style: exactly the strings the corresponding
+\* option rejects (strconv.ParseFloat and NameStyle.Set see the value as written: no trimming, and an
+\* empty value is not "unset")
+InvalidThr == {"abc", "", " 5", "5 "}
+InvalidNames == {"foo", "", " full", "Full"}
+
 \* value a threshold-family option assigns
 ThrOf(a) ==
   CASE a.o = "threshold"  -> a.v
@@ -44,9 +50,9 @@ Effective(args, cfg) ==
       jvA  == SelectSeq(args, IsJv)
       prA  == SelectSeq(args, IsProg)
       json == \E i \in 1..Len(args) : IsJson(args[i])
-      thrErr == thrA = <<>> /\ cfg.thr = "abc"
+      thrErr == thrA = <<>> /\ cfg.thr \in InvalidThr
       thr == IF thrA # <<>> THEN ThrOf(LastOf(thrA)) ELSE IF cfg.thr = "absent" THEN "1" ELSE cfg.thr
-      namErr == namA = <<>> /\ cfg.names = "foo"
+      namErr == namA = <<>> /\ cfg.names \in InvalidNames
       nam == IF namA # <<>> THEN NamesOf(LastOf(namA).v) ELSE IF cfg.names = "absent" THEN "full" ELSE cfg.names
       jvErr == json /\ (IF jvA # <<>> THEN LastOf(jvA).v \notin {"1", "2"} ELSE cfg.jv \in {"7", "x"})
       jv == IF jvA # <<>> THEN LastOf(jvA).v ELSE IF cfg.jv = "absent" THEN "1" ELSE cfg.jv
